@@ -628,7 +628,7 @@ func (x *Exec) store(st *State, p Val, size int64, v Val, e *cfront.Node) {
 	switch p.Reg.Kind {
 	case RPkt:
 		st.Writes[e.ID] = e
-		ev := Event{Kind: "pktstore", Node: e, Lbl: p.Lbl, Off: p.LblOff, Size: size, Val: v, Ptr: p, Looked: lookedKeys(st), Func: x.stack[len(x.stack)-1]}
+		ev := Event{Kind: "pktstore", Node: e, Lbl: p.Lbl, Off: p.LblOff, Size: size, Val: v, Ptr: p, Looked: lookedKeys(st), Func: x.stack[len(x.stack)-1], NAtoms: len(st.Atoms)}
 		x.Events = append(x.Events, ev)
 		if x.Mode == Paths {
 			st.Trace = append(st.Trace, ev)
@@ -640,7 +640,7 @@ func (x *Exec) store(st *State, p Val, size int64, v Val, e *cfront.Node) {
 			x.havocRegion(st, p.Reg)
 		}
 		if p.Reg.Kind != RStack {
-			ev := Event{Kind: "mapstore", Node: e, Lbl: p.Lbl, Off: p.LblOff, Size: size, Val: v, Ptr: p, Map: strings.Join(p.Reg.Maps, "|")}
+			ev := Event{Kind: "mapstore", Node: e, Lbl: p.Lbl, Off: p.LblOff, Size: size, Val: v, Ptr: p, Map: strings.Join(p.Reg.Maps, "|"), NAtoms: len(st.Atoms), Func: x.stack[len(x.stack)-1]}
 			if p.Reg.Kind == RCtx {
 				ev.Kind = "ctxstore"
 			}
